@@ -354,6 +354,7 @@ func TestWireRoundTrip(t *testing.T) {
 		c := wireCase{Proto: rapid.SampledFrom([]string{proto.FrostKeygen, proto.FrostSign, proto.FrostSignTap, proto.DoernerKeygen, proto.DoernerSign, proto.XOR}).Draw(rt, "proto"),
 			N: rapid.IntRange(2, 4).Draw(rt, "n"), Seed: rapid.Uint64Range(1, 1<<30).Draw(rt, "seed")}
 		c.T = rapid.IntRange(0, c.N-1).Draw(rt, "t")
+		c.Reuse = rapid.Bool().Draw(rt, "reuse")
 		wireProp.One(rt, c)
 	})
 }
@@ -362,10 +363,13 @@ type wireCase struct {
 	Proto string
 	N, T  int
 	Seed  uint64
+	// Reuse: every party decodes all incoming messages into ONE Message object (a receive buffer), as a receive loop
+	// does; the handler is given a deep copy of the decoded value
+	Reuse bool
 }
 
 var wireProp = pbt.Define(pbt.Prop[wireCase]{Kind: "wire-roundtrip", Run: wireRun, Class: func(c wireCase) (string, bool) {
-	return fmt.Sprintf("wire|%s|n=%d|t=%d", c.Proto, c.N, c.T), true
+	return fmt.Sprintf("wire|%s|n=%d|t=%d|reuse=%v", c.Proto, c.N, c.T, c.Reuse), true
 }})
 
 func wireRun(c wireCase) *pbt.Fail {
@@ -389,6 +393,8 @@ func wireRun(c wireCase) *pbt.Fail {
 	defer mux.Uninstall()
 	n := sim.New(mux)
 	var werr error
+	mismatch := ""
+	bufs := map[string]*protocol.Message{}
 	n.Route = func(from *sim.Party, m *sim.Msg, to *sim.Party) *sim.Msg {
 		b, err := m.MarshalBinary()
 		if err != nil {
@@ -396,11 +402,31 @@ func wireRun(c wireCase) *pbt.Fail {
 			return m
 		}
 		out := &protocol.Message{}
+		if c.Reuse {
+			if bufs[to.Name] == nil {
+				bufs[to.Name] = &protocol.Message{}
+			}
+			out = bufs[to.Name]
+		}
 		if err := out.UnmarshalBinary(b); err != nil {
 			werr = err
 			return m
 		}
-		return out
+		cp := *out
+		cp.SSID = append([]byte(nil), out.SSID...)
+		cp.Data = append([]byte(nil), out.Data...)
+		cp.BroadcastVerification = append([]byte(nil), out.BroadcastVerification...)
+		if out.BroadcastVerification == nil {
+			cp.BroadcastVerification = nil
+		}
+		if cp.From != m.From || cp.To != m.To || cp.Protocol != m.Protocol || cp.RoundNumber != m.RoundNumber || cp.Broadcast != m.Broadcast ||
+			!bytes.Equal(cp.SSID, m.SSID) || !bytes.Equal(cp.Data, m.Data) || !bytes.Equal(cp.BroadcastVerification, m.BroadcastVerification) {
+			if mismatch == "" {
+				mismatch = fmt.Sprintf("sent {from %q to %q round %d broadcast %v, %d bytes, bv %x}, restored {from %q to %q round %d broadcast %v, %d bytes, bv %x}",
+					m.From, m.To, m.RoundNumber, m.Broadcast, len(m.Data), m.BroadcastVerification, cp.From, cp.To, cp.RoundNumber, cp.Broadcast, len(cp.Data), cp.BroadcastVerification)
+			}
+		}
+		return &cp
 	}
 	if err := s.AddAll(n); err != nil {
 		return pbt.Failf("wire-setup", err.Error())
@@ -410,6 +436,9 @@ func wireRun(c wireCase) *pbt.Fail {
 	}
 	if werr != nil {
 		return pbt.Failf("wire-codec-error", werr.Error())
+	}
+	if mismatch != "" {
+		return pbt.Failf("wire-roundtrip-mismatch:"+c.Proto, "a message restored from its encoding differs from the one sent: "+mismatch)
 	}
 	for _, p := range n.Parties {
 		if o := p.Outcome(); !o.Finished {
